@@ -127,6 +127,47 @@ Theorem C07_pack_write_keeps_prefix : forall (B V T : Type) (zeroB : B) (enc : T
 Proof. exact P_pack_write_keeps_prefix. Qed.
 Print Assumptions C07_pack_write_keeps_prefix.
 
+(* an OVERWRITING write (pack() after seek() to any cursor inside the buffer): size = max(old size, cursor+size) -- the buffer is never
+   shrunk --, every byte before the cursor and every byte from cursor+size on is unchanged, the item's bytes sit at the old cursor *)
+Theorem C07_pack_write_overwrite : forall (B V T : Type) (zeroB : B) (enc : T -> V -> list B) (enc_len : nat -> list B)
+    (p : c07_pack B) (pt : c07_ptype T) (els : list (list V)), c07_pk_pos B p <= length (c07_pk_buf B p) ->
+  let p' := c07_pk_write B V T zeroB enc enc_len p pt els in
+  let n := length (c07_item_bytes B V T enc enc_len pt els) in
+  length (c07_pk_buf B p') = Nat.max (length (c07_pk_buf B p)) (c07_pk_pos B p + n) /\
+  firstn (c07_pk_pos B p) (c07_pk_buf B p') = firstn (c07_pk_pos B p) (c07_pk_buf B p) /\
+  firstn n (skipn (c07_pk_pos B p) (c07_pk_buf B p')) = c07_item_bytes B V T enc enc_len pt els /\
+  skipn (c07_pk_pos B p + n) (c07_pk_buf B p') = skipn (c07_pk_pos B p + n) (c07_pk_buf B p) /\
+  c07_pk_pos B p' = c07_pk_pos B p + n.
+Proof. exact P_pack_write_overwrite. Qed.
+Print Assumptions C07_pack_write_overwrite.
+
+(* round trip through an overwrite (placeholder pattern): write items1, a slot, items2; seek back to the slot; pack a new value of the
+   same packed size; seek(end): size unchanged, eof; after seek(0) the whole type sequence reads back with the NEW value in the slot and
+   all other items intact, ending at eof *)
+Theorem C07_pack_overwrite_roundtrip : forall (B V T : Type) (zeroB : B) (enc : T -> V -> list B) (dec : T -> list B -> option (V * list B))
+    (enc_len : nat -> list B) (dec_len : list B -> option (nat * list B)) (wt : T -> V -> Prop) (lenok : nat -> Prop),
+  (forall t v rest, wt t v -> dec t (enc t v ++ rest) = Some (v, rest)) ->
+  (forall n rest, lenok n -> dec_len (enc_len n ++ rest) = Some (n, rest)) ->
+  forall items1 items2 pt old new,
+    Forall (wt_item V T wt lenok) (items1 ++ (pt, new) :: items2) ->
+    length (c07_item_bytes B V T enc enc_len pt old) = length (c07_item_bytes B V T enc enc_len pt new) ->
+    let p := c07_pk_write_all B V T zeroB enc enc_len (c07_pk_empty B) (items1 ++ (pt, old) :: items2) in
+    let p1 := c07_pk_write B V T zeroB enc enc_len (c07_pk_seek B p (length (all_bytes B V T enc enc_len items1))) pt new in
+    let p2 := c07_pk_seek B p1 (c07_pk_size B p1) in
+    c07_pk_size B p1 = c07_pk_size B p /\ c07_pk_eof B p2 = true /\
+    exists p', c07_pk_read_all B V T dec dec_len (c07_pk_seek B p2 0) (map fst (items1 ++ (pt, new) :: items2))
+               = Some (map snd (items1 ++ (pt, new) :: items2), p') /\ c07_pk_eof B p' = true.
+Proof. exact P_pack_overwrite_roundtrip. Qed.
+Print Assumptions C07_pack_overwrite_roundtrip.
+
+(* non-vacuity: int placeholder 0, a vector of two 2-byte items, seek(0), int 2: the tail survives *)
+Example C07_pack_overwrite_example :
+  let pi := C07_PT nat false [4] 1 in let pv := C07_PT nat true [2] 1 in
+  let p := c07_pk_write_all N N nat 0%N c07_enc_n c07_enc_len_n (c07_pk_empty N) [(pi, [[0%N]]); (pv, [[258%N]; [772%N]])] in
+  let p1 := c07_pkn_write (c07_pk_seek N p 0) pi [[2%N]] in
+  c07_pk_buf N p1 = [2;0;0;0; 2;0;0;0; 2;1; 4;3]%N /\ c07_pk_tell N p1 = 4 /\ c07_pk_size N p1 = 12.
+Proof. repeat split; vm_compute; reflexivity. Qed.
+
 (* the executable instance run against the C++ MPIPack (little-endian patterns of the basic items, 4-byte size prefix) satisfies the
    hypotheses, so the round trip holds for it outright *)
 Theorem C07_pack_roundtrip_bytes : forall items, Forall (wt_item N nat wt_n lenok_n) items ->
